@@ -26,7 +26,7 @@ func reg(c PropCfg) PropCfg { cfgs[c.ID] = c; return c }
 
 var cfgC02 = reg(PropCfg{
 	ID: "C02",
-	Profile: &Profile{Weights: mixedWeights(), MinBlocks: 8, MaxBlocks: 40, MaxTxs: 4, MaxOps: 3, PUpper: 5, PActor: 8, PNamed: 2, PFault: 4, PExec: 8,
+	Profile: &Profile{Weights: mixedWeights(), PBulk: 14, MinBlocks: 8, MaxBlocks: 40, MaxTxs: 4, MaxOps: 3, PUpper: 5, PActor: 8, PNamed: 2, PFault: 4, PExec: 8,
 		PGovParams: 6, PBadRef: 5, Vesting: true, TinyLimits: true, ValidParams: true, LongTime: true},
 	Rule: "history (generated genesis + blocks of signed txs) with >=1 block in which an order completes and >=1 successful non-enterprise tx in a block without completion; distinct by scenario hash",
 	NonTrivial: func(w *World) bool {
@@ -246,7 +246,7 @@ func c01Weights() map[string]int {
 var cfgC01 = reg(PropCfg{
 	ID: "C01",
 	Profile: &Profile{Weights: c01Weights(), SlotRules: []int{0, 0, 0, 1, 2, 2, 2, 3, 5}, MinBlocks: 3, MaxBlocks: 22, MaxTxs: 5, MaxOps: 3, PUpper: 6, PActor: 8, PNamed: 2, PFault: 5, PExec: 8,
-		PGovParams: 8, PBadRef: 5, Vesting: true, TinyLimits: true, BigAmounts: true, LongTime: true, GasSweep: true, MultiPct: 25, PSameKind: 35, PCheck: 8, Crashes: true, EntDenomChange: false, PFeePayer: 4, PGranter: 4},
+		PGovParams: 8, PBadRef: 5, Vesting: true, TinyLimits: true, BigAmounts: true, LongTime: true, GasSweep: true, MultiPct: 25, PSameKind: 35, PCheck: 8, Crashes: true, EntDenomChange: false, PFeePayer: 4, PGranter: 4, PForward: 40, PRetry: 3},
 	Rule: "history with >=1 successful custom-module tx and >=1 failed tx, executed on a second node that differs in node-local options and/or is restarted inside a block that already delivered a tx",
 	PerCase: c01PerCase,
 	MinClasses: map[string]int{"c01.restarts": 50, "c01.restarts-after-tx": 10, "c01.ok-custom-tx": 300, "c01.failed-tx": 200},
